@@ -303,6 +303,8 @@ def adjust_offsets_w_sustain(
     pitches = np.array([n["midi_pitch"] for n in notes])
     note_ons = np.array([n["note_on"] for n in notes])
 
+    note_offs = np.fromiter((n["note_off"] for n in notes), dtype=float)
+
     for pitch in np.unique(pitches):
         pitch_indices = np.where(pitches == pitch)[0]
 
@@ -310,9 +312,15 @@ def adjust_offsets_w_sustain(
         sorted_note_ons = note_ons[sorted_indices]
         sorted_sound_offs = offs[sorted_indices]
 
-        adjusted_sound_offs = np.minimum(sorted_sound_offs[:-1], sorted_note_ons[1:])
+        # a note is cut by the first onset of the same pitch at or after its
+        # release (never before the release, and never by its own onset)
+        next_onset = np.searchsorted(sorted_note_ons, note_offs[sorted_indices])
+        next_onset[next_onset == np.arange(len(sorted_indices))] += 1
+        has_reonset = next_onset < len(sorted_indices)
 
-        offs[sorted_indices[:-1]] = adjusted_sound_offs
+        offs[sorted_indices[has_reonset]] = np.minimum(
+            sorted_sound_offs[has_reonset], sorted_note_ons[next_onset[has_reonset]]
+        )
 
     for offset, note in zip(offs, notes):
         note["sound_off"] = offset
